@@ -26,6 +26,24 @@ def registering_blocks(body):
             if l is not None and CTX_TY.search(body.local_ty(l)):
                 out.add(bb)
                 break
+        # `opt.map(|item| item.poll(cx))`: the closure that captured the task context runs exactly when opt is Some, so
+        # the waker is handed over on the Some side of a later match on the result (not on the None side)
+        if fn.endswith("Option::<T>::map") and len(t["args"]) == 2 and t.get("d") and len(t["d"]) == 1:
+            cl = F.op_local(t["args"][1])
+            captures_ctx = False
+            for _, idx, d in body.defs().get(cl, []) if cl is not None else []:
+                if idx != "t" and d.get("k") == "agg" and d.get("ak") == "closure":
+                    captures_ctx = any(F.op_local(o) is not None and CTX_TY.search(body.local_ty(F.op_local(o))) for o in d["ops"])
+            if captures_ctx:
+                res = t["d"][0]
+                for sb in body.live_blocks():
+                    tt = body.term(sb)
+                    if tt["k"] != "switch":
+                        continue
+                    dl = F.op_local(tt["o"])
+                    for _, idx, d in body.defs().get(dl, []) if dl is not None else []:
+                        if idx != "t" and d.get("k") == "disc" and d.get("p") and d["p"][0] == res:
+                            out |= {tb for v, tb in tt.get("ts", []) if int(v) == 1}
     return out
 
 
